@@ -148,8 +148,13 @@ pub enum Probe {
 
 #[derive(Clone, Debug, PartialEq, Eq, Serialize, Deserialize)]
 pub enum Ev {
-    /// a client takes a read at `node` and keeps it
-    Read { node: usize },
+    /// a client of `node` takes a read and keeps it; `from` = the replica it reads from when that is not
+    /// `node` itself (read at one replica, write at another: remove contexts only)
+    Read {
+        node: usize,
+        #[serde(default)]
+        from: Option<usize>,
+    },
     Edit { node: usize, tag: u32, desc: Desc, held: bool, via: u8 },
     Deliver { node: usize, tag: u32 },
     Gossip { src: usize, gid: u32 },
